@@ -74,6 +74,8 @@ def _random_scenario(rng, digital_rf, root, name):
             files.append(dict(ch=ch + "/metadata", kind="dmdprop"))
     cad = rng.choice([1000, 400, 2500, 60000])
     start = BASE_MS + rng.randrange(0, 10**9) // cad * cad
+    if rng.random() < 0.12:
+        start = 0          # a recording that starts at the epoch: the oldest file has time 0 (rf@0.000.h5, metadata@0.h5)
     data_ids = []
     for ch, kind in chans:
         n = rng.randint(2, 6)
